@@ -292,14 +292,14 @@ func faultCases(thorough bool) []icase {
 		}
 	}
 	out := []icase{
-		{name: "empty+packages", cfg: withPkgs, build: newStore},
-		{name: "helm-empty-secrets", cfg: cfgDefault, build: func() *simkube.Store { s := newStore(); seedEmptySecrets(s, cfgDefault); return s }},
+		{name: "helm-empty-secrets+packages", cfg: withPkgs, build: func() *simkube.Store { s := newStore(); seedEmptySecrets(s, withPkgs); return s }},
 		{name: "older-release+server-secret-emptied+packages", cfg: withPkgs, build: older(withPkgs)},
 	}
 	if thorough {
 		prod := cfgProduction
 		prod.Configurations = []string{"acme/configuration-w:v1"}
 		out = append(out,
+			icase{name: "empty+packages", cfg: withPkgs, build: newStore},
 			icase{name: "fully-initialised", cfg: cfgDefault, build: func() *simkube.Store { return fullStore(cfgDefault) }},
 			icase{name: "ca-has-only-tls.key/tls-secrets-absent", cfg: cfgDefault, build: func() *simkube.Store {
 				s := fullStore(cfgDefault)
